@@ -480,9 +480,22 @@ def r113_polarity(an, rep, V, f, dispositions):
         if not gs:
             continue
         test = inline_locals(f.node, conj(gs), keep_calls=True)
+        # type tests on the data (`isinstance(code_data.type, Function)`) become boolean leaves of their own
+        tleaves = {}
+
+        class _TT(ast.NodeTransformer):
+            def visit_Call(self, c):
+                if isinstance(c.func, ast.Name) and c.func.id == "isinstance" and len(c.args) == 2 and isinstance(c.args[0], ast.Attribute) and _rooted(c.args[0], p):
+                    nm = f"is_{norm_src(c.args[1])}_{len(tleaves)}" if norm_src(c) not in tleaves else tleaves[norm_src(c)]
+                    tleaves[norm_src(c)] = nm
+                    return ast.copy_location(ast.Name(nm, ast.Load()), c)
+                return self.generic_visit(c)
+        import copy as _copy
+        test = ast.fix_missing_locations(_TT().visit(_copy.deepcopy(test)))
         for N in sorted(names):
             if dispositions.get(N) != "consumed":
                 continue
+            dec_conditional = _decoder_consumes_conditionally(an, V, N)
             # model the CodeData argument: every attribute chain rooted at the parameter is a leaf we can set or clear
             leaves = sorted({norm_src(a) for a in ast.walk(test) if isinstance(a, ast.Attribute) and _rooted(a, p)} |
                             {n.id for n in ast.walk(test) if isinstance(n, ast.Name) and n.id != p and n.id not in ("isinstance", "len", "bool", "Function")})
@@ -502,8 +515,12 @@ def r113_polarity(an, rep, V, f, dispositions):
                 continue
             # NOFREE is the one flag that is present when ALL its data (free and cell variables) is empty;
             # every other flag is present when its (single) datum is set
+            tidx = [i for i, l in enumerate(leaves) if l in tleaves.values()]
             if N == "NOFREE":
                 want = {c: not any(c) for c in res}
+            elif tidx and not dec_conditional:
+                # the decoder takes this flag from every kind of code object: the encoder's guard may depend on the datum only
+                want = {c: all(v for i, v in enumerate(c) if i not in tidx) for c in res}
             else:
                 want = {c: all(c) for c in res}
             ok = res == want
@@ -532,6 +549,18 @@ def r113_polarity(an, rep, V, f, dispositions):
                     f"`{norm_src(test)}` adds {N} exactly when {leaves} is {'set' if want_when_set else 'empty'}" if ok else
                     f"`{norm_src(test)}` adds {N} for the assignments {[dict(zip(leaves, c)) for c, v in res.items() if v]} of (set / empty) data, expected "
                     f"{[dict(zip(leaves, c)) for c, v in want.items() if v]}: the re-encoded co_flags differs from the decoded one", config=vname(V))
+
+
+def _decoder_consumes_conditionally(an, V, N) -> bool:
+    """Is the decoder's test for flag N (`"N" in flags`) inside a branch (e.g. the function branch)?"""
+    from .encode_model import guards_of
+    for g in an.closure("from_code", V):
+        for st in ast.walk(g.node):
+            if isinstance(st, (ast.Assign, ast.If, ast.Expr, ast.AugAssign)):
+                for c in ast.walk(st.value if isinstance(st, (ast.Assign, ast.Expr, ast.AugAssign)) else st.test):
+                    if isinstance(c, ast.Compare) and isinstance(c.left, ast.Constant) and c.left.value == N and len(c.ops) == 1 and isinstance(c.ops[0], ast.In):
+                        return bool(guards_of(g.module, g, st))
+    return False
 
 
 def _rooted(a, p) -> bool:
@@ -629,6 +658,67 @@ def r117(an: Analysis, rep):
     rep.run(c04.r047, an, sh)
 
 
+def r119(an: Analysis, rep):
+    """The flag enumeration is never *called* on a flag word: on 3.7-3.10 `FlagClass(value)` for an unnamed value registers a pseudo-member
+    in the class-level value map (Flag._create_pseudo_member_), and enum._decompose consults that map - after one such call a bit no
+    member covers is reported as covered by the pseudo-member, so the same word converts differently the second time."""
+    rep.rule("R11.9", "the flag enumeration class is not called on input values (no pseudo-member registration)", 1)
+    facts = {v: reference(V).get("enum_pseudo_members") for v, V in ((vname(V), V) for V in VERSIONS)}
+    if not all(f and f["call_registers_pseudo_member"] and f["decompose_reads_value_map"] for f in facts.values()):
+        rep.add("R11.9", "enum registers pseudo-members", True, "reference/", f"not on every version ({facts}): rule not applicable", nontrivial=False)
+        return
+    enums = []
+    for m in an.prog.modules.values():
+        if m.is_test:
+            continue
+        for name, exprs in m.assigns.items():
+            for e in exprs:
+                if isinstance(e, ast.Call) and norm_src(e.func).split(".")[-1] in ("IntFlag", "Flag"):
+                    enums.append((m, name))
+        for c in m.classes.values():
+            if any(norm_src(b).split(".")[-1] in ("IntFlag", "Flag") for b in c.node.bases):
+                enums.append((m, c.name))
+    if not enums:
+        raise AnalysisError("flag enumeration (enum.IntFlag / enum.Flag) not found in the package")
+    # does the flag-word decoder reject a decomposed member that has no name (a pseudo-member)?
+    fn = flags_decoder(an, VERSIONS[-1])
+    guard = None
+    for lp in ast.walk(fn.node):
+        if not (isinstance(lp, ast.For) and isinstance(lp.target, ast.Name)):
+            continue
+        v = lp.target.id
+        for st in ast.walk(lp):
+            if isinstance(st, ast.If) and any(isinstance(b, ast.Raise) for b in st.body):
+                for c in ast.walk(st.test):
+                    if isinstance(c, ast.Compare) and len(c.ops) == 1:
+                        l, r = c.left, c.comparators[0]
+                        if isinstance(c.ops[0], ast.NotIn) and isinstance(l, ast.Name) and l.id == v and isinstance(r, ast.Name) and any(r.id == nm for _, nm in enums):
+                            guard = st
+                        if isinstance(c.ops[0], (ast.Is, ast.Eq)) and isinstance(l, ast.Attribute) and l.attr in ("name", "_name_") and isinstance(l.value, ast.Name) and l.value.id == v \
+                                and isinstance(r, ast.Constant) and r.value is None:
+                            guard = st
+    n = 0
+    calls = []
+    for m in an.prog.modules.values():
+        if m.is_test:
+            continue
+        for c in ast.walk(m.tree):
+            if isinstance(c, ast.Call) and isinstance(c.func, ast.Name) and any(c.func.id == nm for _, nm in enums) and c.args:
+                n += 1
+                if not isinstance(c.args[0], ast.Constant):
+                    calls.append((m, c))
+    ok = not calls or guard is not None
+    where = loc(calls[0][0], calls[0][1]) if calls else loc(fn.module, fn.node)
+    if ok:
+        why = (f"no call of the flag enumeration on a run-time value in the package ({n} call(s) examined)" if not calls else
+               f"`{norm_src(calls[0][1])[:50]}` registers pseudo-members, but the decoder raises on a decomposed member without a name (`{norm_src(guard.test)}`)")
+    else:
+        why = (f"`{norm_src(calls[0][1])[:60]}` builds an enumeration value from a run-time integer: for a word with a bit no member names this registers a pseudo-member "
+               f"for that bit in the class (enum.py, Flag._create_pseudo_member_), which enum._decompose then reports as a member covering the bit; {fn.name} does not reject "
+               f"members without a name, so the next conversion of a word with that bit silently drops it (the result depends on earlier calls)")
+    rep.add("R11.9", f"{fn.qual}::pseudo-members of the flag enumeration cannot be accepted", ok, where, why)
+
+
 def run(an: Analysis, rep):
     rep.explanation = (
         "Decides, per interpreter version: (R11.1) every returning path of the flag-word decoder is dominated by a raising test of the "
@@ -660,6 +750,7 @@ def run(an: Analysis, rep):
         rep.run(r116, an, rep, V)
     rep.run(r115, an, rep)
     rep.run(r117, an, rep)
+    rep.run(r119, an, rep)
     from .common import SharedRules
     from . import c04
     rep.run(c04.r041, an, SharedRules(rep, "R11.8", "every argument count is stored in the data: the decoded Args determine co_argcount / co_posonlyargcount / co_kwonlyargcount "
